@@ -4,6 +4,7 @@
    blocks after it about the modelled net.IP.String, the bit-level meaning of CIDR rules and rule FILES (text). *)
 From Hy Require Import model.C09_ACL proof.C09_ACL model.C09_Conc proof.C09_Conc.
 From Hy Require Import model.C09_IPString proof.C09_IPString proof.C09_CIDR model.C09_Text proof.C09_Text.
+From Hy Require Import model.C09_Engine proof.C09_Engine.
 From Coq Require Import ZArith Sorting.Sorted.
 Local Open Scope N_scope.
 
@@ -149,6 +150,60 @@ Theorem C09_engine_first : forall rs d a p pre r post,
      end).
 Proof. exact engine_first. Qed.
 Print Assumptions C09_engine_first.
+
+(* The engine entry points on a request as a resolver hands it over - AddrEx{Host, Port, ResolveInfo{IPv4, IPv6, Err}}, where
+   an error may come TOGETHER with addresses (one family resolved, the other lookup failed): TCP looks up ProtocolTCP, UDP and
+   CheckUDP ProtocolUDP, on exactly (Host, ResolveInfo.IPv4, ResolveInfo.IPv6).  The error is never read: *)
+Theorem C09_engine_lookup : forall ip_str rs d a op,
+  engine_call ip_str rs d a op =
+  let dec := handle_result d (fresh rs (mkQuery (reqx_host a) (op_proto op) (rx_port a))) in
+  (fst dec, op, reqx_after ip_str a (snd dec)).
+Proof. exact enginex_lookup. Qed.
+Print Assumptions C09_engine_lookup.
+
+(* requests that differ only in the error get the same outbound, the same method and the same rewrite, namely those of the
+   error-free request of C09_engine_first; the outbound sees the caller's request (error included) unless a hijack address
+   replaces Host and ResolveInfo (then without error); no addresses + error = no ResolveInfo. *)
+Theorem C09_engine_error_irrelevant : forall ip_str rs d n port v4 v6 e e' op,
+  let c := engine_call ip_str rs d (mkReqX n port (Some (mkRI v4 v6 e))) op in
+  let c' := engine_call ip_str rs d (mkReqX n port (Some (mkRI v4 v6 e'))) op in
+  fst c = fst c' /\
+  engine_handle rs d (reqx_forget (mkReqX n port (Some (mkRI v4 v6 e)))) (op_proto op) =
+  engine_handle rs d (mkReq n port (Some (v4, v6))) (op_proto op) /\
+  (snd c = mkReqX n port (Some (mkRI v4 v6 e)) /\ snd c' = mkReqX n port (Some (mkRI v4 v6 e')) \/
+   snd c = snd c' /\ exists h a b, rx_ri (snd c) = Some (mkRI a b false) /\ rx_host (snd c) = ip_str h).
+Proof. exact enginex_err_irrelevant. Qed.
+Print Assumptions C09_engine_error_irrelevant.
+
+Theorem C09_engine_no_addresses : forall rs d n port e op,
+  engine_handle rs d (reqx_forget (mkReqX n port (Some (mkRI [] [] e)))) (op_proto op) =
+  engine_handle rs d (reqx_forget (mkReqX n port None)) (op_proto op).
+Proof. exact enginex_nil_ri. Qed.
+Print Assumptions C09_engine_no_addresses.
+
+(* first match at the entry points: the outbound of the first rule matching (name, IPv4, IPv6, protocol of the entry point,
+   port) receives the call, with the request untouched or rewritten to that rule's hijack address; no rule = default outbound. *)
+Theorem C09_engine_call_first : forall ip_str rs d a op pre r post,
+  rs = pre ++ r :: post ->
+  Forall (fun x => rule_match x (norm_host (reqx_host a)) (op_proto op) (rx_port a) = false) pre ->
+  rule_match r (norm_host (reqx_host a)) (op_proto op) (rx_port a) = true ->
+  engine_call ip_str rs d a op =
+    (r_ob r, op,
+     match r_hijack r with
+     | [] => a
+     | _ => match to4 (r_hijack r) with
+            | Some x => mkReqX (ip_str (r_hijack r)) (rx_port a) (Some (mkRI x [] false))
+            | None => mkReqX (ip_str (r_hijack r)) (rx_port a) (Some (mkRI [] (r_hijack r) false))
+            end
+     end).
+Proof. exact enginex_first. Qed.
+Print Assumptions C09_engine_call_first.
+
+Theorem C09_engine_call_default : forall ip_str rs d a op,
+  Forall (fun x => rule_match x (norm_host (reqx_host a)) (op_proto op) (rx_port a) = false) rs ->
+  engine_call ip_str rs d a op = (d, op, a).
+Proof. exact enginex_default. Qed.
+Print Assumptions C09_engine_call_default.
 
 (* The predicate before the repair (start port 0 = "any port") is refuted: tcp/0-100 matched port 443. *)
 Theorem C09_port_any_old_refuted :
